@@ -24,6 +24,8 @@ type Gen struct {
 	genFile map[string]bool
 	repo    string // repository root the packages were loaded from
 	guardMemo map[*ssa.Function][]guardUse
+	pureMemo  map[*ssa.Function]bool
+	pureWhy   string
 }
 
 type Closure struct {
@@ -625,7 +627,14 @@ func (u *UnitGen) bindLoopSpec(fr *Frame, li *loopInfo) {
 			}
 		}
 		if !ok {
-			unsup("loop %d anchor %q not found at line %d of %s (ordinal drift?)", li.ordinal, li.spec.Anchor, li.line, shortFile(file))
+			// The anchor guards against ordinal drift (a loop added or removed above this one). When
+			// the function still has exactly the loops the contract describes, the ordinal alone
+			// identifies the loop and a cosmetic edit of the loop line is not an alarm.
+			if len(fr.loops) == len(u.contract.Loops) {
+				u.note("loop %d: anchor %q no longer on the loop line (line %d); matched by ordinal (loop count unchanged)", li.ordinal, li.spec.Anchor, li.line)
+			} else {
+				unsup("loop %d anchor %q not found at line %d of %s (ordinal drift?)", li.ordinal, li.spec.Anchor, li.line, shortFile(file))
+			}
 		}
 	}
 }
@@ -751,6 +760,7 @@ func (u *UnitGen) anchoredAsserts(fr *Frame, st *State, file string, line int) {
 		env := fr.env.withState(st)
 		env.fr = fr
 		env.atAnchor = true
+		env.loop = innermostLoop(fr)
 		v := env.eval(gu.E)
 		if _, declared := u.g.specs.GhostVars[gu.Var]; declared {
 			// update of a declared ghost variable (part of the unit's state: framed, havoced by loops)
@@ -774,6 +784,7 @@ func (u *UnitGen) anchoredAsserts(fr *Frame, st *State, file string, line int) {
 		env := fr.env.withState(st)
 		env.fr = fr
 		env.atAnchor = true
+		env.loop = innermostLoop(fr)
 		name := a.Label
 		if name == "" {
 			name = fmt.Sprint(i + 1)
@@ -800,4 +811,17 @@ func isPlainReturnBlock(b *ssa.BasicBlock) bool {
 		}
 	}
 	return true
+}
+
+// innermostLoop: the smallest loop of the frame containing the block being executed (so that
+// anchored asserts and ghost updates inside a loop body can say ranged[loopi-1] for the current
+// element instead of naming the loop variable).
+func innermostLoop(fr *Frame) *loopInfo {
+	var best *loopInfo
+	for _, li := range fr.loops {
+		if fr.curBlock != nil && li.blocks[fr.curBlock] && (best == nil || len(li.blocks) < len(best.blocks)) {
+			best = li
+		}
+	}
+	return best
 }
